@@ -759,7 +759,78 @@ class MkTrunc(Op):
         return "mktrunc/%s/%s" % (a[0], a[1])
 
 
+class RecAccept(Op):
+    """Recurrence texts whose start, end or second point is an impossible date-time (or whose interval is malformed)
+    are refused whatever the repetition count and notation - no slot of the expression goes unread; the same
+    expression with the nearest valid twin in that slot is accepted."""
+    prop = PROP
+    name = "recaccept"
+    model = False
+
+    # (impossible, valid twin, the calendar modes in which the first is impossible)
+    ALL = ("greg", "d360", "d365", "d366")
+    TWINS = [("2000-02-30T00Z", "2000-02-28T00Z", ("greg", "d365", "d366")),
+             ("2001-02-29T00Z", "2001-02-28T00Z", ("greg", "d365")),
+             ("2000-13-01T00Z", "2000-12-01T00Z", ALL), ("2000-00-10T00Z", "2000-01-10T00Z", ALL),
+             ("2000-01-01T24:30Z", "2000-01-01T23:30Z", ALL), ("2000-01-01T25Z", "2000-01-01T23Z", ALL),
+             ("2000-01-01T00:60Z", "2000-01-01T00:59Z", ALL), ("2000-01-01T00:00:60Z", "2000-01-01T00:00:59Z", ALL),
+             ("2000-01-01T00+01:75", "2000-01-01T00+01:45", ALL), ("2000-367T00Z", "2000-360T00Z", ALL),
+             ("2001-366T00Z", "2001-360T00Z", ("greg", "d365", "d360")), ("2000-W54-1T00Z", "2000-W51-1T00Z", ALL),
+             ("2000-W10-8T00Z", "2000-W10-7T00Z", ALL), ("2000-01-31T00Z", "2000-01-30T00Z", ("d360",)),
+             ("20000230T00Z", "20000228T00Z", ("greg", "d365", "d366")), ("2000-02-30", "2000-02-28", ("greg", "d365", "d366"))]
+    DURS = ["P1D", "PT6H", "P1M", "P1Y", "P1W"]
+    BAD_DURS = ["P1", "PT6", "P1H", "PxD", "P-1D"]
+
+    def gen(self, rng, tier, boost):
+        n = 600 * boost if tier == "quick" else 6000 * boost
+        for _ in range(n):
+            m = gens.mode(rng)
+            bad, good, only = rng.choice(self.TWINS)
+            if m not in only:
+                continue
+            reps = rng.choice(["", "1", "1", "2", "3", "10"])
+            other = rng.choice(["1999-06-01T00Z", "1999-06-01T00Z", "1999-001T00Z", "1999-W10-1T00Z"])
+            late = rng.choice(["2030-06-01T00Z", "2030-152T00Z"])
+            form = rng.choice(["start/end:end", "start/end:start", "start/dur", "dur/end", "start/baddur"])
+            for point, impossible in ((bad, True), (good, False)):
+                if form == "start/end:end":
+                    text = "R%s/%s/%s" % (reps, other, point)
+                elif form == "start/end:start":
+                    text = "R%s/%s/%s" % (reps, point, late)
+                elif form == "start/dur":
+                    text = "R%s/%s/%s" % (reps, point, rng.choice(self.DURS))
+                elif form == "dur/end":
+                    text = "R%s/%s/%s" % (reps, rng.choice(self.DURS), point)
+                else:
+                    text = "R%s/%s/%s" % (reps, good, rng.choice(self.BAD_DURS) if impossible else rng.choice(self.DURS))
+                yield (m, text, impossible)
+
+    def line(self, a):
+        return "recaccept %s %r %s" % (a[0], a[1], "impossible" if a[2] else "valid")
+
+    def impl(self, a):
+        from metomi.isodatetime.parsers import TimeRecurrenceParser
+        set_mode(a[0])
+        try:
+            r = TimeRecurrenceParser().parse(a[1])
+        except ValueError:
+            return "err"
+        return "ok " + str(r)
+
+    def oracle(self, a, out):
+        if out.startswith(("EXC", "Timeout")):
+            return "%s: %s" % (self.line(a), out)
+        if a[2] and out != "err":
+            return "%s: a recurrence naming an impossible date-time / a malformed interval was accepted as %s" % (
+                self.line(a), out)
+        if not a[2] and out == "err":
+            return "%s: a well-formed recurrence over valid date-times was refused" % self.line(a)
+
+    def label(self, a):
+        return "recaccept/%s/%s" % (a[0], "impossible" if a[2] else "valid")
+
+
 def ops():
     import common
     common.foreign_configurations()
-    return [MkTP(), MkTrunc(), TextAccept(), DecAccept(), TruncAccept(), Garbage(), ExcClasses()]
+    return [MkTP(), MkTrunc(), RecAccept(), TextAccept(), DecAccept(), TruncAccept(), Garbage(), ExcClasses()]
